@@ -120,6 +120,8 @@ func NewDriver(
 	host string,
 	opts ...util.Option,
 ) (*Driver, error) {
+	// opts may be a prefix of a longer list the caller still uses: never append into its backing array
+	opts = opts[:len(opts):len(opts)]
 	opts = append(opts, withNetconfConnection(true))
 
 	// create the generic driver just to yoink the transport and channel out of it, by doing this
